@@ -61,14 +61,15 @@ def dropP (p : Char → Bool) : List Char → List Char
 /-- The match `\d*\.?\d+` selects at the start of `s` (greedy, with the regex's
     backtracking: "12." and "12.x" give "12"): integer digits, fraction digits when
     the dot is consumed, and the rest.  `none` when it cannot match here. -/
-def parseNumber (s : List Char) : Option (List Char × Option (List Char) × List Char) :=
-  let d1 := takeP isDigit s
-  let r1 := dropP isDigit s
+def parseNumberAux (d1 r1 : List Char) : Option (List Char × Option (List Char) × List Char) :=
   match r1 with
   | '.' :: r2 =>
     if takeP isDigit r2 ≠ [] then some (d1, some (takeP isDigit r2), dropP isDigit r2)
     else if d1 ≠ [] then some (d1, none, r1) else none
   | _ => if d1 ≠ [] then some (d1, none, r1) else none
+
+def parseNumber (s : List Char) : Option (List Char × Option (List Char) × List Char) :=
+  parseNumberAux (takeP isDigit s) (dropP isDigit s)
 
 /-- `[-+]?` -/
 def splitSign : List Char → Bool × List Char
@@ -157,27 +158,31 @@ def finish (returnInt neg : Bool) (mnum mden : Nat) (num : Int) (den : Nat) : Ex
   else if returnInt then .ok (.int (ceilDiv num den))
   else .ok (.float num den)
 
-/-- `strutils.string_to_bytes(text, unit_system, return_int)` -/
+/-- lines 239-264 once the text has matched: magnitude digits `d1[.d2]`, prefix, unit -/
+def compute (sys : List Char) (tableBase : Option Nat) (returnInt neg : Bool)
+    (d1 : List Char) (d2 : Option (List Char)) (pfx : List Char) (u : UnitKind) : Except Err Outcome :=
+  match multiplier sys tableBase pfx with
+  | .error e => .error e
+  | .ok mult =>
+    -- magnitude = ±mant/mden; `magnitude /= 8` for bit units
+    finish returnInt neg (natOfDigits (d1 ++ fracDigits d2)) (10 ^ (fracDigits d2).length)
+      ((if neg then -1 else 1) * ((natOfDigits (d1 ++ fracDigits d2) * mult : Nat) : Int))
+      (10 ^ (fracDigits d2).length * unitDiv u)
+
+/-- `strutils.string_to_bytes(text, unit_system, return_int)`.
+    (Projections instead of pattern-`let`s: `info = (base, letters, optI)`, `num = (d1, d2, rest)`.) -/
 def stringToBytes (sys text : List Char) (returnInt : Bool) : Except Err Outcome :=
   match lookupSys sys with
   | none => .error .valueError                      -- lines 232-236
-  | some (tableBase, letters, optI) =>
-    let (neg, r0) := splitSign text
-    match parseNumber r0 with
+  | some info =>
+    match parseNumber (splitSign text).2 with
     | none => .error .valueError                    -- lines 254-256
-    | some (d1, d2, r1) =>
-      let (pfx, r2) := parsePrefix letters optI r1
-      match parseUnit r2 with
+    | some num =>
+      match parseUnit (parsePrefix info.2.1 info.2.2 num.2.2).2 with
       | none => .error .valueError
       | some u =>
-        let mant := natOfDigits (d1 ++ fracDigits d2)
-        let mden := 10 ^ (fracDigits d2).length     -- magnitude = ±mant/mden
-        let den := mden * unitDiv u                 -- `magnitude /= 8` for bit units
-        match multiplier sys tableBase pfx with
-        | .error e => .error e
-        | .ok mult =>
-          let num : Int := (if neg then -1 else 1) * ((mant * mult : Nat) : Int)
-          finish returnInt neg mant mden num den
+        compute sys info.1 returnInt (splitSign text).1 num.1 num.2.1
+          (parsePrefix info.2.1 info.2.2 num.2.2).1 u
 
 /-! ### QemuImgInfo._extract_bytes -/
 
@@ -193,21 +198,22 @@ inductive Mag
   | dec (d1 : List Char) (d2 : Option (List Char))
   deriving DecidableEq, Repr
 
+/-- first alternative of group 1 at the start of `s` (`d` the leading digits, `r` what follows them) -/
+def parseSci (d r : List Char) : Option (Mag × List Char) :=
+  match r with
+  | e :: sg :: r2 =>
+    if d ≠ [] ∧ (e = 'e' ∨ e = 'E') ∧ (sg = '-' ∨ sg = '+') ∧ takeP isDigit r2 ≠ [] then
+      some (.sci d (sg == '-') (takeP isDigit r2), dropP isDigit r2)
+    else none
+  | _ => none
+
 /-- group 1 of SIZE_RE at the start of `s`: first alternative first -/
 def parseMag (s : List Char) : Option (Mag × List Char) :=
-  let d := takeP isDigit s
-  let sci : Option (Mag × List Char) :=
-    match dropP isDigit s with
-    | e :: sg :: r2 =>
-      if d ≠ [] ∧ (e = 'e' ∨ e = 'E') ∧ (sg = '-' ∨ sg = '+') ∧ takeP isDigit r2 ≠ [] then
-        some (.sci d (sg == '-') (takeP isDigit r2), dropP isDigit r2)
-      else none
-    | _ => none
-  match sci with
+  match parseSci (takeP isDigit s) (dropP isDigit s) with
   | some x => some x
   | none =>
     match parseNumber s with
-    | some (d1, d2, r) => some (.dec d1 d2, r)
+    | some num => some (.dec num.1 num.2.1, num.2.2)
     | none => none
 
 /-- `SIZE_RE.search`: leftmost position at which group 1 matches (the rest of the pattern is optional) -/
@@ -229,14 +235,12 @@ def stripBytesWord : List Char → Option (List Char)
 def parseBytesInfo (s : List Char) : Option (List Char) :=
   match dropP isSpace s with
   | '(' :: r1 =>
-    let r2 := dropP isSpace r1
-    let n := takeP isDigit r2
-    let r3 := dropP isDigit r2
-    if n ≠ [] ∧ takeP isSpace r3 ≠ [] then
-      match stripBytesWord (dropP isSpace r3) with
+    -- digits, then at least one space, then `bytes`, spaces, `)`
+    if takeP isDigit (dropP isSpace r1) ≠ [] ∧ takeP isSpace (dropP isDigit (dropP isSpace r1)) ≠ [] then
+      match stripBytesWord (dropP isSpace (dropP isDigit (dropP isSpace r1))) with
       | some r5 =>
         match dropP isSpace r5 with
-        | ')' :: _ => some n
+        | ')' :: _ => some (takeP isDigit (dropP isSpace r1))
         | _ => none
       | none => none
     else none
@@ -267,22 +271,25 @@ inductive Step
   | done (r : Except Err Outcome)
   | viaS2b (text : List Char)
 
+/-- lines 121-135 once SIZE_RE has matched: `mag` group 1, `r` the text after it -/
+def extractAfter (mag : Mag) (r : List Char) : Step :=
+  -- group 2 is `takeP isWord (dropP isSpace r)`, group 3 is looked for after it
+  match parseBytesInfo (dropP isWord (dropP isSpace r)) with
+  | some n => .done (.ok (.int (natOfDigits n)))             -- lines 125-126: "(N bytes)" wins
+  | none =>
+    match magText mag with
+    | none => .done (.ok .unmodelled)
+    | some m =>
+      if takeP isWord (dropP isSpace r) = [] then .done (intOfText m)     -- lines 127-128
+      else
+        -- lines 129-135: "K" means "KB"
+        .viaS2b (m ++ (if (takeP isWord (dropP isSpace r)).length = 1 ∧ takeP isWord (dropP isSpace r) ≠ ['B']
+                       then takeP isWord (dropP isSpace r) ++ ['B'] else takeP isWord (dropP isSpace r)))
+
 def extractStep (details : List Char) : Step :=
   match findMag details with
   | none => .done (.error .valueError)                       -- lines 118-120
-  | some (mag, r) =>
-    let ws := dropP isSpace r
-    let unit := takeP isWord ws
-    match parseBytesInfo (dropP isWord ws) with
-    | some n => .done (.ok (.int (natOfDigits n)))           -- lines 125-126: "(N bytes)" wins
-    | none =>
-      match magText mag with
-      | none => .done (.ok .unmodelled)
-      | some m =>
-        if unit = [] then .done (intOfText m)                -- lines 127-128
-        else
-          -- lines 129-135: "K" means "KB"
-          .viaS2b (m ++ (if unit.length = 1 ∧ unit ≠ ['B'] then unit ++ ['B'] else unit))
+  | some found => extractAfter found.1 found.2
 
 /-- `QemuImgInfo._extract_bytes(details)` -/
 def extractBytes (details : List Char) : Except Err Outcome :=
